@@ -1,6 +1,7 @@
 //! A synthesised TrueType font whose `prep` leaves state behind *only when ppem < 12*:
 //! storage[0], cvt[1], twilight point 0, function definition 1 and instruction definition 0x91.
-//! Each glyph's program makes exactly one of these observable by moving point 1 vertically, so a
+//! Each glyph's program makes exactly one of these observable by moving point 1 vertically (glyphs 6
+//! and 7 additionally write storage / cvt at glyph time, exercising the copy-on-write buffers), so a
 //! `reconfigure` from ppem 8 to ppem 16 that fails to re-derive one of the buffers changes a pen
 //! stream (or turns an error into a success).
 //!
@@ -70,6 +71,10 @@ fn glyph_programs() -> Vec<Vec<u8>> {
         vec![SVTCA_Y, PUSHB1, 0, SZP2, PUSHB1, 0, GC0, PUSHB1, 1, SZP2, PUSHB1, 0, CALL], // 3 twilight
         vec![UNUSED_OPCODE],                           // 4 instruction definition
         vec![PUSHB1, 1, RCVT, PUSHB1, 0, CALL],        // 5 cvt[1]
+        // 6: glyph-time write to storage[1], then storage[0] shows (copy-on-write must have copied)
+        vec![PUSHB2, 1, 5, WS, PUSHB1, 0, RS, PUSHB1, 0, CALL],
+        // 7: glyph-time write to cvt[2], then cvt[1] shows
+        vec![PUSHB2, 2, 9, WCVTP, PUSHB1, 1, RCVT, PUSHB1, 0, CALL],
     ]
 }
 
